@@ -1,0 +1,41 @@
+//go:build verif
+
+package aws
+
+// Verification hooks. Compiled only with `-tags verif`; used by the external
+// correspondence harness under /verif. Nothing here is reachable from a normal build.
+
+import (
+	"github.com/atlassian/escalator/pkg/cloudprovider"
+	"github.com/aws/aws-sdk-go/service/autoscaling/autoscalingiface"
+	"github.com/aws/aws-sdk-go/service/ec2/ec2iface"
+)
+
+// VerifNewCloudProvider is Builder.Build without the AWS session: the two service clients are supplied
+// by the caller.
+func VerifNewCloudProvider(service autoscalingiface.AutoScalingAPI, ec2Service ec2iface.EC2API, configs ...cloudprovider.NodeGroupConfig) (*CloudProvider, error) {
+	cloud := &CloudProvider{
+		service:    service,
+		ec2Service: ec2Service,
+		nodeGroups: make(map[string]*NodeGroup, len(configs)),
+	}
+	if err := cloud.RegisterNodeGroups(configs...); err != nil {
+		return nil, err
+	}
+	return cloud, nil
+}
+
+// VerifAttach runs attachInstancesToASG with the production terminate function.
+func VerifAttach(n cloudprovider.NodeGroup, ids []*string) error {
+	return n.(*NodeGroup).attachInstancesToASG(ids, terminateOrphanedInstances)
+}
+
+// VerifTerminateOrphans runs terminateOrphanedInstances.
+func VerifTerminateOrphans(n cloudprovider.NodeGroup, ids []*string) {
+	terminateOrphanedInstances(n.(*NodeGroup), ids)
+}
+
+// VerifBatchSizes exposes the two API batch limits the provider was compiled with.
+func VerifBatchSizes() (attach int, terminate int, maxTries int) {
+	return batchSize, terminateBatchSize, maxTerminateInstancesTries
+}
